@@ -371,7 +371,10 @@ theorem step_forLoop {m n : Nat} (ih : AllGood m n) (s : State) (v i l : Int) (p
     generalize execOne n m (pushS s (.int v)) p true = p1 at g1
     obtain ⟨s1, r1⟩ := p1
     dsimp only
-    exact good_loop (same_pushS s _) g1 (ih.2.2.2.2.2.1 s1 _ i l p)
+    refine good_loop (same_pushS s _) g1 ?_
+    split
+    · exact good_of_same _ (Same.rfl' s1)
+    · exact ih.2.2.2.2.2.1 s1 _ i l p
 
 theorem step_repeatLoop {m n : Nat} (ih : AllGood m n) (s : State) (k : Nat) (p : Obj) :
     Good m s (repeatLoop (n + 1) m s k p) := by
